@@ -304,7 +304,7 @@ func c10Gen(w *bufio.Writer, seed int64, tier string) {
 		c10Rewrite(w, r, buf.Bytes(), cidr)
 	}
 	// concurrency cases (see c08GenRace / c09GenRace); `race` on the CIDR table becomes `crace`
-	races := 8
+	races := 12
 	if tier == "thorough" || seed >= 1000 {
 		races = 60
 	}
@@ -313,11 +313,11 @@ func c10Gen(w *bufio.Writer, seed int64, tier string) {
 		bw := bufio.NewWriter(&buf)
 		cidr := c%2 == 0
 		if cidr && c%4 == 0 {
-			c08GenRaceCleanup(bw, r)
+			c08GenRaceCleanup(bw, r, c/4)
 		} else if cidr {
-			c08GenRace(bw, r)
+			c08GenRace(bw, r, c/2)
 		} else {
-			c09GenRace(bw, r)
+			c09GenRace(bw, r, c/2)
 		}
 		bw.Flush()
 		c10Rewrite(w, r, buf.Bytes(), cidr)
